@@ -186,7 +186,7 @@ func Small() []Doc {
 		{"srt-40-cues", "srt", []byte(srtMany(40)), true},
 		// cue lists a conversion must carry over AS THEY ARE: not in start order, with equal times, with equal texts
 		{"srt-unordered", "srt", []byte("1\n00:00:05,000 --> 00:00:06,000\nfive\n\n2\n00:00:01,000 --> 00:00:02,000\none\n\n3\n00:00:03,000 --> 00:00:04,500\nthree\n"), true},
-		{"vtt-equal-times-equal-texts", "vtt", []byte("WEBVTT\n\n00:01.000 --> 00:02.000\nsame\n\n00:01.000 --> 00:02.000\nother\n\n00:02.000 --> 00:03.000\nsame\n\n00:02.000 --> 00:03.000\nsame\n"), true},
+		{"vtt-equal-times-equal-texts", "vtt", []byte("WEBVTT\n\n00:01.000 --> 00:02.000\nsame\n\n00:01.000 --> 00:02.000\nother\n\n00:02.000 --> 00:03.000\nother\n\n00:02.000 --> 00:03.000\nsame\n\n00:03.000 --> 00:04.000\nsame\n\n00:03.000 --> 00:04.000\nsame\n"), true},
 		{"ssa-spaced-style-names", "ssa", []byte("[Script Info]\nTitle: t\nScriptType: v4.00\n\n[V4 Styles]\nFormat: Name, Fontname, Bold\nStyle: Main Dialogue,Arial,-1\nStyle: Top  Left,Tahoma,0\n\n[Events]\nFormat: Marked, Start, End, Style, Name, MarginL, MarginR, MarginV, Effect, Text\nDialogue: Marked=0,0:00:01.00,0:00:02.00,Main Dialogue,Ann Lee,0,0,0,,first\nDialogue: Marked=0,0:00:03.00,0:00:04.00,Top  Left,,0,0,0,,second {\\i1}styled\n"), true},
 		{"srt-invalid-time", "srt", []byte("1\n00:00:01,000 --> 00:0x:02,000\na\n"), false},
 		{"srt-no-end", "srt", []byte("1\n00:00:01,000 -->\na\n"), false},
